@@ -116,7 +116,7 @@ fn cfg_a() -> Config {
     for s in ["Date", "BigInt", "S"] {
         cfg.generate.r#type.scalar_types.insert(s.into(), ScalarTypeConfig::Single("string".into()));
     }
-    cfg
+    pipeline::via_config_text(&cfg)
 }
 
 /// run one arrangement (files of definition texts) through the SDL pipeline
